@@ -172,6 +172,10 @@ CURATED_CONC = {
                                                  "branches": [[{"k": "wait", "s": 1}, {"k": "step"}],
                                                               [{"k": "wait", "s": 1}, {"k": "step", "dur": 0.5}, {"k": "step"}, {"k": "step"}]]},
                                                 {"k": "step", "dur": 1.5}, {"k": "step"}]},
+    # an invoke inside a branch parks with a resume time of "now" (default timeout 0): the call must still be able to suspend
+    "m18_invoke_in_branch": {"nodes": [{"k": "par", "branches": [[{"k": "invoke", "caught": True}, {"k": "step"}], [{"k": "step"}]]}, {"k": "step"}]},
+    "m19_invoke_and_wait": {"nodes": [{"k": "map", "branches": [[{"k": "invoke", "caught": True}], [{"k": "wait", "s": 1}, {"k": "step"}],
+                                                                 [{"k": "step", "dur": 0.4}]]}, {"k": "wait"}]},
     "m11_tolerance": {"nodes": [{"k": "map", "caught": True, "cfg": {"tolc": 1}, "braise": [0, 2], "branches": [[], [{"k": "step", "dur": 0.3}], [], [{"k": "step"}]]}]},
 }
 
@@ -354,6 +358,23 @@ def c09(ctx, e):
                     return
 
 
+def c09_returns_promptly(ctx, e, bound=2.0):
+    """the call returns when its policy is decided: the (virtual) time between the completion event being set and execute() returning
+    is bounded independently of how long a checkpoint call takes (the code waits at most 1 s for the timer thread)"""
+    for r in e.invocations:
+        t_set = {}
+        for x in r.events:
+            if x["ev"] == "EvSet" and x.get("e") not in t_set:
+                t_set[x.get("e")] = x["t"]
+            elif x["ev"] == "ExReturn" and x.get("e") in t_set:
+                dt = x["t"] - t_set[x["e"]]
+                if dt > bound and x["how"] in ("returned", "suspended"):
+                    ctx.violation("return-delayed-after-decision",
+                                  f"invocation {r.inv}: the map/parallel call {x['how']} {dt:.1f} virtual seconds after its completion event "
+                                  f"was set (bound {bound} s; API latency {e.sc.get('api_latency')})", scen_of(e))
+                    return
+
+
 def c09_decided_but_suspended(ctx, e):
     """the call must return when its policy is decided: an invocation must not end PENDING while the recorded branch outcomes
     already decide the completion policy of a map/parallel that has not delivered yet"""
@@ -439,6 +460,53 @@ def c10(ctx, e):
                       scen_of(e))
         if sig != "orphan-known-op-update":
             return
+
+
+def c10_no_function_under_completed_context(ctx, e):
+    """no user function (step body, condition check) is entered under a context after that context's completion record was handed
+    over - judged on the order of the real events of one invocation (queue puts and function entries)"""
+    for r in e.invocations:
+        done_pos = {}        # context id -> position of the (accepted) put of its SUCCEED / FAIL
+        puts = {}            # operation id -> positions of its accepted puts / passed orphan checks
+        checked = {}         # operation id -> positions at which an orphan check for it passed (update accepted or explicit check)
+        last_body_start = {}  # thread -> position of the BodyStart that began the traversal the thread is in
+        for k, x in enumerate(r.events):
+            if x["ev"] == "BodyStart":
+                last_body_start[x.get("th")] = k
+            if x["ev"] == "OrphanCheck":
+                checked.setdefault(x["id"], []).append(k)
+            if x["ev"] == "Ckpt" and not x.get("rejected"):
+                checked.setdefault(x["id"], []).append(k)
+                puts.setdefault(x["id"], []).append(k)
+                if x.get("typ") == "CONTEXT" and x.get("action") in ("SUCCEED", "FAIL"):
+                    done_pos.setdefault(x["id"], k)
+            elif x["ev"] == "FnEnter" and x.get("kind") in ("step", "poll"):
+                path = x["path"]
+                for a in ancestors(path):
+                    try:
+                        aid = path_id(a)
+                    except ValueError:
+                        continue
+                    if aid in done_pos and done_pos[aid] < k:
+                        try:
+                            oid = path_id(path)
+                        except ValueError:
+                            oid = None
+                        # the operation passed an orphan check in this invocation BEFORE the context completed: the branch was not
+                        # orphaned yet when its durable operation began (the function of an operation in progress may still run)
+                        # (only checks made in the CURRENT traversal of the branch count: after the BodyStart of this thread)
+                        since = last_body_start.get(x.get("th"), -1)
+                        if any(since < p < done_pos[aid] for p in checked.get(oid, [])) \
+                                and not any(p > done_pos[aid] for p in puts.get(oid, [])):
+                            break
+                        # the known check-then-put race: the operation's own START slipped behind the completion record
+                        raced = any(p > done_pos[aid] for p in puts.get(oid, []))
+                        ctx.violation("orphan-known-op-update" if raced else "function-under-completed-context",
+                                      f"invocation {r.inv}: the user function of {path} (attempt {x.get('attempt')}) was entered after the "
+                                      f"completion record of its enclosing context {a} had been handed over", scen_of(e))
+                        if not raced:
+                            return
+                        break
 
 
 def c08(ctx, e):
